@@ -433,3 +433,14 @@ Definition conform_cov (self : Z) (pf : bool) (tr : list event) : list Z :=
   | ph :: _ => snd ph
   | [] => []
   end.
+
+(* misuse scenarios that end in DISPATCH_CLIENT_CRASH (harness/c19_block.c crash <n>): the recorded trace of the
+   crashing thread must be accepted and must be able to end in PCrash *)
+Definition pc_crash (p : pc) : bool := match p with PCrash => true | _ => false end.
+Definition conform_crash (self : Z) (pf : bool) (tr : list event) : Z * Z :=
+  let '(ps, i) := vrun self pf [PIdle] tr 0 in (i, b2z (existsb pc_crash (closure self pf LAT_DEPTH ps))).
+Definition conform_cov_crash (self : Z) (pf : bool) (tr : list event) : list Z :=
+  match filter (fun ph => pc_crash (fst ph)) (closure_h self pf LAT_DEPTH (vrun_h self pf [(PIdle, [])] tr)) with
+  | ph :: _ => snd ph
+  | [] => []
+  end.
